@@ -106,6 +106,10 @@ func repCases() []repCase {
 	add("Gather", []hx.Attr{hx.AInt("axis", 0)}, 1, "identity-indices", f(1, 3, 2), ref.I64Vec(0, 1, 2))
 	add("Unsqueeze", nil, 1, "leading-axis", f(1, 2, 3), ref.I64Vec(0))
 	add("Squeeze", nil, 1, "leading-axis", f(1, 1, 2, 3), ref.I64Vec(0))
+	add("Slice", nil, 1, "rank-1-int64-middle", ref.I64Vec(5, 6, 7, 8, 9), ref.I64Vec(1), ref.I64Vec(4), ref.I64Vec(0), ref.I64Vec(1))
+	add("Slice", nil, 1, "rank-1-int64-whole-defaults", ref.I64Vec(5, 6, 7), ref.I64Vec(0), ref.I64Vec(3), nil, nil)
+	add("Gather", []hx.Attr{hx.AInt("axis", 0)}, 1, "rank-1-int64-data", ref.I64Vec(5, 6, 7, 8), ref.I64Vec(1, 2))
+	add("Concat", []hx.Attr{hx.AInt("axis", 0)}, 1, "rank-1-int64", ref.I64Vec(5, 6), ref.I64Vec(7))
 	add("Slice", nil, 1, "whole-default-axes-steps", f(1, 3, 4), ref.I64Vec(0, 0), ref.I64Vec(3, 4), nil, nil)
 	add("Mul", nil, 1, "by-ones", f(1, 2, 3), ref.FromF(ref.F32, []int{2, 3}, 1, 1, 1, 1, 1, 1))
 	add("Add", nil, 1, "zeros", f(1, 2, 3), ref.FromF(ref.F32, []int{3}, 0, 0, 0))
